@@ -18,7 +18,8 @@ REPO = "/repo"
 
 # per-property configuration: shards (quick, thorough), race build, global budgets in seconds
 CONF = {
-    "C01": {}, "C02": {}, "C03": {}, "C04": {}, "C05": {}, "C06": {}, "C07": {}, "C08": {}, "C09": {}, "C10": {},
+    "C01": {"fuzz": [("FuzzRoundTrip", 90), ("FuzzText", 90)]},
+    "C02": {"fuzz": [("FuzzNewick", 60), ("FuzzNexus", 60), ("FuzzPhyloXML", 45), ("FuzzNextstrain", 45)]}, "C03": {}, "C04": {}, "C05": {}, "C06": {}, "C07": {}, "C08": {}, "C09": {}, "C10": {},
     "C11": {"race": True, "shards": (4, 8)},
     "C12": {}, "C13": {}, "C14": {}, "C15": {}, "C16": {}, "C17": {},
     "C18": {"needs_cli": True}, "C19": {"needs_cli": True}, "C20": {"needs_cli": True},
@@ -201,6 +202,9 @@ def cmd_run(pid, tier):
         elif not done and timed_out and not fails:
             inconclusive.append("shard %d stopped by the global budget of %ds" % (s, budget))
 
+    if tier == "thorough" and conf.get("fuzz") and not violations and os.environ.get("VERIF_NOFUZZ", "") == "":
+        run_fuzz(pid, binary, conf["fuzz"], rundir, seed, tier, stats, violations, inconclusive, notes, log)
+
     wall = time.time() - t0
     # dedupe violations by check (one minimal replay per check and reason class is enough)
     seen = set()
@@ -229,6 +233,81 @@ def cmd_run(pid, tier):
         if total_eval == 0 or not timed_out:
             return 2
     return 0
+
+
+def run_fuzz(pid, binary, targets, rundir, seed, tier, stats, violations, inconclusive, notes, log):
+    """Native coverage-guided fuzzing of the package's Fuzz targets (thorough tier only; a campaign
+    cannot be pinned to a seed, the saved crasher is the reproducible unit). Each crasher is converted
+    to a plain replay file and confirmed by replaying it in a fresh process."""
+    scale = float(os.environ.get("VERIF_FUZZ_SCALE", "1"))
+    # coverage instrumentation for the fuzzer needs a binary built with -fuzz
+    fuzzbin = os.path.join(WORK, "bin", pid.lower() + ".fuzz.test")
+    cmd = ["go", "test", "-c", "-fuzz=Fuzz", "-tags", "verif", "-vet=off", "-o", fuzzbin, "./checks/" + pid.lower()]
+    r = subprocess.run(cmd, cwd=ROOT, env=goenv(), stdout=subprocess.PIPE, stderr=subprocess.STDOUT, text=True)
+    log.write("$ %s\n%s\n" % (" ".join(cmd), r.stdout))
+    if r.returncode != 0:
+        inconclusive.append("fuzz binary does not build:\n" + r.stdout[-2000:])
+        return
+    for (target, secs) in targets:
+        secs = max(5, int(secs * scale))
+        corpus = os.path.join(pkgdir(pid), "testdata", "fuzz", target)
+        before = set(os.listdir(corpus)) if os.path.isdir(corpus) else set()
+        cache = os.path.join(rundir, "fuzzcache", target)
+        os.makedirs(cache, exist_ok=True)
+        env = goenv()
+        env.update({"VERIF_OUT": "", "VERIF_TIER": tier, "VERIF_SEED": str(seed), "VERIF_REPLAY": "",
+                    "VERIF_CLI": os.path.join(WORK, "bin", "gotree")})
+        cmd = [fuzzbin, "-test.run", "^$", "-test.fuzz", "^" + target + "$", "-test.fuzztime", "%ds" % secs,
+               "-test.fuzzminimizetime", "0s", "-test.fuzzcachedir", cache, "-test.parallel", "16", "-test.timeout", "0"]
+        t1 = time.time()
+        try:
+            r = subprocess.run(cmd, cwd=pkgdir(pid), env=env, stdout=subprocess.PIPE, stderr=subprocess.STDOUT, text=True,
+                               timeout=secs + 300)
+            out = r.stdout
+        except subprocess.TimeoutExpired as e:
+            out = (e.stdout or b"").decode("utf8", "replace") if isinstance(e.stdout, bytes) else (e.stdout or "")
+            inconclusive.append("fuzz target %s did not stop within its budget" % target)
+        log.write("$ %s\n%s\n" % (" ".join(cmd), out[-6000:]))
+        execs, interesting = 0, 0
+        for m in re.finditer(r"execs: (\d+) \(\d+/sec\)(?:, new interesting: (\d+))?", out):
+            execs, interesting = int(m.group(1)), int(m.group(2) or 0)
+        nseed = 0
+        m = re.search(r"gathering baseline coverage: \d+/(\d+) completed", out)
+        if m:
+            nseed = int(m.group(1))
+        key = "fuzz:" + target
+        stats[key] = {"check": key, "rule": "native go fuzzing (coverage-guided, 16 workers, %d s, minimiser off) of %s from the seed corpus compiled into the target; same oracle as the generated check; non-trivial/distinct = inputs that reached new coverage" % (secs, target),
+                      "requested": 0, "evaluations": execs, "anchors": nseed, "nontrivial_evaluations": interesting, "hashset": set(range(interesting)),
+                      "labels": {}, "excluded": {}, "samples": [], "first_samples": [], "failures": 0,
+                      "extra": {"fuzz_seconds": round(time.time() - t1, 1), "seed_corpus": nseed, "new_interesting": interesting}}
+        after = set(os.listdir(corpus)) if os.path.isdir(corpus) else set()
+        for name in sorted(after - before):
+            src = os.path.join(corpus, name)
+            env2 = dict(env)
+            env2.update({"VERIF_CORPUS_FILE": src, "VERIF_CORPUS_TARGET": target})
+            r = subprocess.run([binary, "-test.run", "^TestCorpusToReplay$", "-test.count", "1", "-test.v"], cwd=pkgdir(pid), env=env2,
+                               stdout=subprocess.PIPE, stderr=subprocess.STDOUT, text=True)
+            m = re.search(r"^VERIF-CORPUS-REPLAY (\S+)$", r.stdout, re.M)
+            os.remove(src)
+            if not m:
+                inconclusive.append("fuzz crasher %s of %s could not be converted:\n%s" % (name, target, r.stdout[-800:]))
+                continue
+            rp = m.group(1)
+            rrc, rout = run_replay(binary, pid, rp)
+            if "VERIF-REPLAY-PASS" in rout:
+                os.remove(rp)
+                notes.append("VERIF-NOTE fuzz crasher of %s does not reproduce in a fresh process (dropped)" % target)
+            else:
+                reason = "found by native fuzzing (%s): %s" % (target, (re.search(r"VERIF-REPLAY-FAIL .*reason=(.*)$", rout, re.M) or [None, first_crash_line(rout)])[1])
+                violations.append((key, rp, reason))
+                stats[key]["failures"] += 1
+        try:
+            if os.path.isdir(corpus) and not os.listdir(corpus):
+                os.rmdir(corpus)
+        except OSError:
+            pass
+        if violations:
+            break
 
 
 def first_crash_line(text):
